@@ -89,6 +89,15 @@ def gen_direct(chk):
     for obs in ([None], [{}], [0], [""], [[]], ["x"], [5], [[1]], [{"type": "require_mfa"}, "x"], ["x", {"type": "require_mfa"}]):
         for ctx in ({}, {"mfa": True}):
             cases.append({"fam": "odd", "decision": "permit", "obligations": obs, "ctx": ctx})
+    # the schema only asks an obligation to be an object: `type`, `on`, `attrs` of every JSON shape (unknown types are
+    # ignored), each followed by an obligation that is not met
+    for odd in ({"vendor": "x", "name": "y"}, ["require_mfa"], [], {}, 5, 2.5, True, None, "", "REQUIRE_MFA", "require_mfa "):
+        for field in ("type", "on", "attrs"):
+            ob = {"type": "require_mfa"}
+            ob[field] = odd
+            for ctx in ({}, {"mfa": True}):
+                cases.append({"fam": "oddfield", "decision": "permit", "obligations": [ob, {"type": "require_captcha"}], "ctx": ctx})
+                cases.append({"fam": "oddfield", "decision": "permit", "obligations": [{"type": "require_captcha"}, ob], "ctx": dict(ctx, captcha_passed=True)})
     for decision in ("permit", "deny", "Permit", ""):
         cases.append({"fam": "empty", "decision": decision, "obligations": [], "ctx": {}})
     return cases
